@@ -777,6 +777,19 @@ def rule_recursion_converted(ctx):
                       expected="try: ... except RecursionError: raise <library error>", found=short(call))
     if n < 3:
         raise AnalysisError("fewer than 3 recursive walks outside the wrapper found (%d)" % n)
+    # the JSON decoder itself is a recursive walk over the TEXT: nested deeper than the interpreter's limit (a few hundred to a
+    # thousand brackets -- valid JSON by the grammar) it raises RecursionError, which is no ValueError.  The library's one
+    # to-dictionary helper converts it.
+    gd = prog.func("stix2.utils::_get_dict")
+    dec = [c for c in body_walk(gd.node) if isinstance(c, ast.Call) and norm(c.func) in ("json.loads", "json.load", "simplejson.loads", "simplejson.load")]
+    if len(dec) < 2:
+        raise AnalysisError("_get_dict: fewer than 2 decoder calls (%d)" % len(dec))
+    for k_, c in enumerate(dec, 1):
+        tr = in_try_catching(c, names=("RecursionError", "RuntimeError", "Exception", "BaseException"))
+        run.check(tr is not None, R, key(gd.module.relpath, gd.qualname, "decoder-recursion-converted#%d" % k_),
+                  "RecursionError can escape from parse(): the JSON decoder walks the text recursively and this call is not inside "
+                  "a try that converts the error -- parse('[' * 100000 + ']' * 100000) raises RecursionError", file=gd.module.relpath,
+                  line=c.lineno, function=gd.qualname, expected="except RecursionError: raise ValueError(...)", found=short(c, 60))
     # the same zone, another internal failure: float(<integer of any size>) raises OverflowError (an ArithmeticError, not a
     # ValueError) for integers beyond the double range -- JSON has no such limit, so `"number": 1e400 written out` is decodable
     conv = {}
